@@ -27,7 +27,15 @@ func NewLogHist(b int, m float64, max float64) *LogHist {
 }
 
 func (h *LogHist) bin(x float64) int {
-	return int(math.Floor(h.mOverLogb * math.Log(x)))
+	// Clamp before converting: the conversion to int is not
+	// meaningful for values far outside the range.
+	bin := math.Floor(h.mOverLogb * math.Log(x))
+	if bin < 0 {
+		return -1
+	} else if bin >= float64(len(h.bins)) {
+		return len(h.bins)
+	}
+	return int(bin)
 }
 
 func (h *LogHist) Add(x float64) {
